@@ -1,14 +1,14 @@
 #!/bin/bash
 # tools/runmutant_scratch.sh PATCH PROP [PROP...] : apply PATCH to a scratch worktree of /repo (HEAD) under /var/tmp,
-# run the checks against it (GTMC_REPO), remove the worktree.  /repo itself is untouched; evidence files are restored.
+# run the checks against it (GTMC_REPO), remove the worktree.  /repo itself and /verif/evidence are untouched.
 P="$(realpath "$1")"; shift
 cd /verif
 W=$(mktemp -d /var/tmp/gtmc-mut.XXXXXX); rmdir "$W"
 git -C /repo worktree add -q --detach "$W" HEAD || exit 9
 git -C "$W" apply "$P" || { echo "patch does not apply"; git -C /repo worktree remove --force "$W"; exit 9; }
-TMPD=$(mktemp -d /var/tmp/gtmc-ev.XXXX); cp -a evidence/. "$TMPD"/ 2>/dev/null
-trap 'git -C /repo worktree remove --force "$W"; cp -a "$TMPD"/. /verif/evidence/; rm -rf "$TMPD"' EXIT
+TMPD=$(mktemp -d /var/tmp/gtmc-ev.XXXX)
+trap 'git -C /repo worktree remove --force "$W"; rm -rf "$TMPD"' EXIT
 for prop in "$@"; do
-  out=$(GTMC_REPO="$W" GTMC_WORKERS=${GTMC_WORKERS:-8} ./check "$prop" --tier ${TIER:-quick} 2>&1); rc=$?
+  out=$(GTMC_REPO="$W" GTMC_EVIDENCE_DIR="$TMPD" GTMC_WORKERS=${GTMC_WORKERS:-8} ./check "$prop" --tier ${TIER:-quick} 2>&1); rc=$?
   echo "== $(basename $(dirname $P))/$(basename $P) $prop exit=$rc $(echo "$out" | grep -c '^VIOLATION') violation lines; first: $(echo "$out" | grep -A1 '^VIOLATION' | sed -n 2p | cut -c1-150)"
 done
